@@ -458,3 +458,21 @@ Theorem C19_undirected_refine : forall (ids idr : str -> N) (net : list rxn) (is
   complex_graph_nodes (as_bipartite_undirected (RG (rg_nodes (raw_export ids idr net iso)) E)) = Some (complex_graph net iso).
 Proof. exact undirected_refine. Qed.
 Print Assumptions C19_undirected_refine.
+
+(** (28) the premise of (27) from the shape of the input: unique edge ids and sides without a repeated species (dicts) give
+         pairwise distinct (species, reaction, role) incidences. *)
+Theorem C19_dict_sides_distinct : forall net : list rxn, NoDup (map rid net) ->
+  (forall e, In e net -> NoDup (map fst (rlhs e)) /\ NoDup (map fst (rrhs e))) ->
+  NoDup (map (fun a => (a_species a, a_rxn a, a_role a)) (bip_arcs net)).
+Proof. exact keys_nodup_of_dicts. Qed.
+Print Assumptions C19_dict_sides_distinct.
+
+(** (29) in _complex_vectors the DIRECTION of an arc plays no part (the role says on which side a species stands): for ANY
+         attributed graph, reversing any set of arcs — role and coefficient kept — changes neither a reactant / product vector
+         of any reaction node nor the complex graph. *)
+Theorem C19_direction_irrelevant : forall (ns : list rnode) (A A' : list rarc),
+  Forall2 (fun x y => y = x \/ y = RArc (ra_v x) (ra_u x) (ra_role x) (ra_stoich x)) A A' ->
+  (forall ro r, node_vec (RG ns A') ro r = node_vec (RG ns A) ro r) /\
+  complex_graph_nodes (RG ns A') = complex_graph_nodes (RG ns A).
+Proof. exact direction_irrelevant. Qed.
+Print Assumptions C19_direction_irrelevant.
